@@ -4,6 +4,10 @@ pub mod c01;
 pub mod c02;
 pub mod c03;
 pub mod c04;
+pub mod c06;
+pub mod c07;
+pub mod c08;
+pub mod c09;
 pub mod c12;
 pub mod c13;
 pub mod c17;
@@ -16,6 +20,10 @@ pub fn dispatch(id: &str, tier: Tier) -> i32 {
         "C03" => c03::run(tier).finish(),
         "C04" => c04::run(tier).finish(),
         "C05" => c04::run_c05(tier).finish(),
+        "C06" => c06::run(tier).finish(),
+        "C07" => c07::run(tier).finish(),
+        "C08" => c08::run(tier).finish(),
+        "C09" => c09::run(tier).finish(),
         "C12" => c12::run(tier).finish(),
         "C13" => c13::run(tier).finish(),
         "C17" => c17::run(tier).finish(),
